@@ -335,6 +335,11 @@ long World::on_read(KFd &k, void *buf, size_t n) {
 	}
 	size_t m = std::min(avail, n);
 	if (cl.rdcap && m > cl.rdcap) { m = cl.rdcap; probe("short_read"); }
+	if (mode == "exact" && (cl.faulty || (cl.client_closed && !cl.eof)) && !cl.no_expect) {
+		// the daemon may give this peer up while it processes any of its messages: they are handed over one per turn, so that what it did process is known
+		if (cl.msg_done_turn) { errno = EAGAIN; trace.tag("read-deferred"); return -1; }
+		m = 1;
+	}
 	if (n == 0) return 0;
 	memcpy(buf, cl.rx.data() + cl.rx_off, m);
 	dbg("read c%d %zu bytes", cl.idx, m);
@@ -343,6 +348,7 @@ long World::on_read(KFd &k, void *buf, size_t n) {
 	cl.in.feed(cl.rx.data() + cl.rx_off, m, cl.idx, ins);
 	cl.rx_off += m;
 	if (ins.size() > 1) probe("multi_message_read");
+	if (!ins.empty() && m == 1 && mode == "exact" && (cl.faulty || cl.client_closed)) cl.msg_done_turn = true;
 	for (auto &in : ins) {
 		// in exact mode a batch is fed member by member (it must behave like its members sent one by one)
 		JV j;
@@ -405,6 +411,12 @@ void World::on_close(KFd &k) {
 		Client *cl = client_of(k);
 		if (cl) {
 			if (sigterm_sent) { cl->expq.clear(); probe("closed_by_termination"); }
+			else if (mode == "exact" && !cl->no_expect && cl->faulty) {
+				// the daemon gives a faulty peer up when it cannot write to it: an observation, fed to the model as an input (DESIGN.md 5.2)
+				flush_pending();
+				if (!cl->closing) { probe("faulty_peer_dropped_by_daemon"); model.on_peer_gone(cl->idx, false); cl->closing = true; }
+				cl->expq.clear();
+			}
 			else if (mode == "exact" && !cl->no_expect) { if (!match_close(*cl)) {
 				violation("C02", "unexpected-close", "daemon closed connection c" + std::to_string(cl->idx) + " (" + cl->transport + ") although nothing it sent or suffered justifies that"); } }
 			else cl->expq.clear();
